@@ -33,14 +33,15 @@ def jsSubstring (s : S) (i : Int) (j : Option Int) : S :=
     | some j => clampIdx len j
   slice s (min a b) (max a b)
 
+def substrCnt (len a : Nat) : Option Int → Nat
+  | none => len - a
+  | some n => min (if n < 0 then 0 else n.toNat) (len - a)
+
 /-- String.prototype.substr -/
 def jsSubstr (s : S) (i : Int) (n : Option Int) : S :=
   let len := s.length
   let a := relIdx len i
-  let cnt := match n with
-    | none => len - a
-    | some n => min (if n < 0 then 0 else n.toNat) (len - a)
-  slice s a (a + cnt)
+  slice s a (a + substrCnt len a n)
 
 /-- `x.at(i) ?? ""` -/
 def jsAt (s : S) (i : Int) : S :=
@@ -56,7 +57,8 @@ def jsCharAt (s : S) (i : Int) : S :=
 
 def rep (s : S) (n : Nat) : S := (List.replicate n s).flatten
 
-def padFill (filler : S) (n : Nat) : S := (rep filler (n / filler.length + 1)).take n
+/-- "the String value consisting of repeated concatenations of filler truncated to length n" -/
+def padFill (filler : S) (n : Nat) : S := rep filler (n / filler.length) ++ filler.take (n % filler.length)
 
 def padStart (s : S) (n : Nat) (filler : S) : S :=
   if n ≤ s.length || filler.isEmpty then s else padFill filler (n - s.length) ++ s
